@@ -13,7 +13,8 @@ RULE = ("formats E 2..7 x M 0..10 x srbits in {1..12, default}; inputs: represen
         "from the harness by an ENUMERATOR (arange % 2^srbits), so one quantise call on an (inputs x 2^srbits) tensor yields, per "
         "input, the exact multiset of results over all draws: probabilities are counted, not estimated. A second run with a SPY on "
         "the real generator checks the draw request (one call, size == x.shape, range [0,2^srbits)) and that each element's result "
-        "is the enumerated result for its own recorded draw. Non-trivial = input strictly between two representable values; "
+        "is the enumerated result for its own recorded draw. Every case first quantises with OTHER srbits / nearest rounding of the "
+        "same (E, M) in the same process (history). Non-trivial = input strictly between two representable values; "
         "distinct = (E, M, srbits) combinations x input class.")
 ASSUMPTIONS = ["the random source is torch.randint looked up on the torch module at call time (rebinding it is the substitution point)",
                "float64 arithmetic on float32 values is exact"]
